@@ -209,6 +209,8 @@ class SchemaRaises(SchemaBase):
         if not SchemaCheckSwitch().is_on():
             return
         assert isinstance(fname, str)
+        if self.arg_specs is None:
+            return  # no argument schema declared (e.g. a return-only schema)
         # check positional args (by name)
         seen = set()
         msgs = []
